@@ -159,6 +159,20 @@ fn payload_bytes(c: &Case, f: &F, v: &V, layouts: &Layouts, out: &mut Vec<u8>, a
             if out.len() < at + l.size { out.resize(at + l.size, 0); }
             for (i, (ff, vv)) in c.structs[*k].iter().zip(vs).enumerate() { payload_bytes(c, ff, vv, layouts, out, at + l.offsets[i]); }
         }
+        // an option nested in the payload (a field of an optional struct): payload first, `is_ok` right behind it;
+        // an optional opaque pointer is the pointer itself, an absent value is all zero bytes
+        (F::Opt(t), V::Some(x)) => match **t {
+            F::BoxOpaque => payload_bytes(c, t, x, layouts, out, at),
+            _ => {
+                let (s, _) = ty_size_align(c, t, layouts);
+                payload_bytes(c, t, x, layouts, out, at);
+                put(out, at + s, &[1]);
+            }
+        },
+        (F::Opt(_), V::None) => {
+            let (s, _) = ty_size_align(c, f, layouts);
+            if out.len() < at + s { out.resize(at + s, 0); }
+        }
         _ => {}
     }
 }
